@@ -15,7 +15,7 @@ import (
 // loaded from export data and has no bodies: calls into it need an intrinsic).
 var defaultRoots = []string{
 	"errors", "sort", "slices", "cmp", "strings", "bytes", "unicode", "unicode/utf8", "strconv",
-	"path", "io", "bufio", "encoding/binary", "math", "math/bits", "time", "sync/atomic", "container/list", "container/heap", "maps", "iter", "internal/stringslite", "github.com/influxdata/influxql",
+	"path", "io", "bufio", "encoding/binary", "math", "math/bits", "time", "sync/atomic", "container/list", "container/heap", "maps", "iter", "internal/stringslite", "github.com/influxdata/influxql", "github.com/zeebo/mwc",
 }
 
 type loaded struct {
